@@ -110,8 +110,8 @@ package validator
 //@   requires-assumed [C03:A-OPA4] forall i int, j int :: (0 <= i && i < len(violations) && 0 <= j && j < len(violations) && i != j ==> violations[i] != violations[j]) && (0 <= i && i < len(warnings) && 0 <= j && j < len(warnings) && i != j ==> warnings[i] != warnings[j]) && (0 <= i && i < len(infos) && 0 <= j && j < len(infos) && i != j ==> infos[i] != infos[j])
 //@   requires-assumed [C03:A-OPA4] forall i int, j int :: (0 <= i && i < len(violations) && 0 <= j && j < len(warnings) ==> violations[i] != warnings[j]) && (0 <= i && i < len(violations) && 0 <= j && j < len(infos) ==> violations[i] != infos[j]) && (0 <= i && i < len(warnings) && 0 <= j && j < len(infos) ==> warnings[i] != infos[j])
 //@   requires-assumed [C03:A-OPA8] forall i int :: (0 <= i && i < len(violations) ==> is(violations[i], map[string]any) && violations[i].(map[string]any) != nil) && (0 <= i && i < len(warnings) ==> is(warnings[i], map[string]any) && warnings[i].(map[string]any) != nil) && (0 <= i && i < len(infos) ==> is(infos[i], map[string]any) && infos[i].(map[string]any) != nil)
-//@   ensures [C03:count] len(result) == len(violations) + len(warnings) + len(infos)
-//@   ensures [C03:allocated] forall k int :: 0 <= k && k < len(result) ==> (is(result[k], map[string]any) && ref(result[k].(map[string]any)) <= alloc)
+//@   ensures [C03,C12:count] len(result) == len(violations) + len(warnings) + len(infos)
+//@   ensures [C03,C12:allocated] forall k int :: 0 <= k && k < len(result) ==> (is(result[k], map[string]any) && ref(result[k].(map[string]any)) <= alloc)
 //@   ensures [C03:violations] forall k int :: 0 <= k && k < len(violations) ==> (result[k] == violations[k] && result[k].(map[string]any)["resultSeverity"] == box(string, "http://www.w3.org/ns/shacl#Violation"))
 //@   ensures [C03:warnings] forall k int :: len(violations) <= k && k < len(violations) + len(warnings) ==> (result[k] == warnings[k - len(violations)] && result[k].(map[string]any)["resultSeverity"] == box(string, "http://www.w3.org/ns/shacl#Warning"))
 //@   ensures [C03:infos] forall k int :: len(violations) + len(warnings) <= k && k < len(result) ==> (result[k] == infos[k - len(violations) - len(warnings)] && result[k].(map[string]any)["resultSeverity"] == box(string, "http://www.w3.org/ns/shacl#Info"))
@@ -138,9 +138,9 @@ package validator
 //@   ensures [C03:conforms] result["conforms"] == box(bool, conforms)
 //@   ensures [C03:profileName] result["profileName"] == box(string, profileName)
 //@   ensures [C03:result-iff-nonempty] has(result, "result") == (len(results) != 0)
-//@   ensures [C03:result-list] len(results) != 0 ==> result["result"] == box([]any, results)
+//@   ensures [C03,C12:result-list] len(results) != 0 ==> result["result"] == box([]any, results)
 //@   ensures [C03:date-iff-configured] has(result, "dateCreated") == reportConfig.IncludeReportCreationTime
-//@   ensures [C03:id] result["@id"] == box(string, "validation-report")
+//@   ensures [C03,C12:id] result["@id"] == box(string, "validation-report")
 //@   ensures [C03:keys] forall k string :: has(result, k) ==> (k == "@id" || k == "@type" || k == "profileName" || k == "conforms" || k == "dateCreated" || k == "result")
 //@   ensures [C03:frame] forall m map[string]any :: ref(m) <= old(alloc) ==> unchanged(m)
 
@@ -150,7 +150,8 @@ package validator
 
 //@ func DialectInstance(report *types.ObjectMap, context *types.ObjectMap) []types.ObjectMap
 //@   requires report != nil && context != nil
-//@   ensures [C03:one-instance] len(result) == 1 && result[0]["@id"] == box(string, "dialect-instance")
+//@   ensures [C03,C12:one-instance] len(result) == 1 && result[0]["@id"] == box(string, "dialect-instance")
+//@   ensures [C12:encodes-the-report] is(result[0]["doc:encodes"], []map[string]any) && len(result[0]["doc:encodes"].([]map[string]any)) == 1 && result[0]["doc:encodes"].([]map[string]any)[0] == old(deref(report))
 //@   ensures [C03:frame] forall m map[string]any :: ref(m) <= old(alloc) ==> unchanged(m)
 
 //@ func BuildReport(resultPtr *rego.ResultSet, validationConfig c.ValidationConfiguration, reportConfig c.ReportConfiguration) (string, error)
